@@ -169,7 +169,7 @@ CHECKS = {
     "C12": {
         "text": "RFC 2104 structure for every key-length class (each length 0..64 and the class > 64): in init, reinit and finalize the 64-byte block absorbed equals (key ^ pad) || pad-padding byte for "
                 "byte (ipad 0x36, opad 0x5C), long keys are hashed to 32 bytes first, the block is wiped; finalize = inner digest, outer key block, update(inner digest, 32), finalize(out); update is a "
-                "wrapper; one-shot = init/update/finalize/wipe. Hash primitives are uninterpreted events whose outputs are fresh symbols. Premise R-C12-HASH re-runs all rules of C10/C11.",
+                "wrapper; one-shot = init/update/finalize/wipe. A key-length class that the code splits further (a test of the key pointer against null, an alignment) is checked once per path: each must set the documented block up; a null key with a non-zero length is outside the contract. Hash primitives are uninterpreted events whose outputs are fresh symbols. Premise R-C12-HASH re-runs all rules of C10/C11.",
         "note": "MAC values are not computed; the hash is C10/C11; the caller passing the same key to finalize is an API contract.",
         "technique": "finite-class (key length) symbolic path summaries with uninterpreted hash events",
     },
@@ -189,7 +189,7 @@ CHECKS = {
                 "lock-step cursor/length; each last-block length 1..31 copies exactly that many bytes of T; T and U wiped. The chain trip count comes from ScalarEvolution (either loop direction). "
                 "Premise R-C14-PRF re-runs C12/C10/C11. Besides the per-class summaries, the shape-independent rule R-C14-SMALL evaluates the function for count in {0,1,2,3,5} x every outlen 0..100 "
                 "(200 and more counts in the thorough tier) as straight paths (count and length concrete, data symbolic, HMAC uninterpreted) and compares the PRF transcript of every block and the "
-                "bytes written with RFC 8018: a refuter only (nothing beyond the bound is covered), so an unrecognised loop shape with a defect that shows for small block numbers is still reported. A password hashed once up front is recognised: the digest may key the PRFs only on paths where the password is longer than 64 bytes and while it is intact in its buffer.",
+                "bytes written with RFC 8018: a refuter only (nothing beyond the bound is covered), so an unrecognised loop shape with a defect that shows for small block numbers is still reported. A password hashed once up front is recognised: the digest may key the PRFs only on paths where the password is longer than 64 bytes and while it is intact in its buffer. The iteration count must reach the chain at its full width: a truncation to fewer than 32 bits in a function that compares the count with no constant above 255 (so that no path can have bounded it) is refuted as count-narrowed, whatever the loops look like.",
         "note": "Derived key values are not computed; block numbers beyond 2^32 are outside RFC 8018; HMAC is C12.",
         "technique": "finite-class symbolic path summaries with uninterpreted HMAC events; generic iterations of the block and chain loops",
     },
